@@ -203,4 +203,4 @@ more("C13","Every ordered purpose list of up to 3 entries over the allowed purpo
 more("C14","Hostless endpoint URIs (dweb:, file:///, unix:, urn:, did:, mailto:) singly and in lists.")
 more("C15","Signature halves respelled within the fixed width (s+N, s+2N, r+N, both, N-s) for a key made to measure on all four curves; keys whose x and y both begin with a zero byte.")
 more("C16","Per curve a searched key whose x and y both begin with a zero byte (cmd/lzsearch).")
-more("C20","The stateless scenario applies create + deactivate and hands the applier's model to the shared generic and DID transformers as it is.")
+more("C20","The stateless scenario applies create + deactivate and hands the applier's model to the shared generic transformer as it is.")
